@@ -14,7 +14,7 @@ import ast
 
 from ..absint import Event
 from ..actions import ActionAnalysis, describe_mut, guard_signature, raise_key, strip, trail_text
-from ..model import AnalysisError, Program
+from ..model import AnalysisError, Program, norm
 from ..report import Report
 
 
@@ -116,8 +116,20 @@ def loop_induction(R: Report, rule: str, f, results, engine=None) -> None:
             lambda e: e.kind in ("mut", "raise") or (e.kind == "cond" and item_rx.search(str(e.args.get("term", ""))) is not None))]
     except AnalysisError:  # too many alternatives: the raise part of the inductive step is skipped, the unrolled analysis stands
         R.notes.append(f"loop induction over refusals skipped for {f.short}: too many event alternatives")
+    # fields of the object that hold a constructor argument as it was passed in
+    passed_in = set()
+    init_ = f.cls.methods.get("__init__") if f.cls is not None else None
+    if init_ is not None:
+        for s_ in ast.walk(init_.node):
+            if isinstance(s_, ast.Assign) and isinstance(s_.value, ast.Name) and s_.value.id in init_.params:
+                passed_in |= {norm(t) for t in s_.targets if isinstance(t, ast.Attribute)}
     for g in holders:
-        loops = [lp for lp in ast.walk(g.node) if isinstance(lp, ast.For)]
+        # only loops over a CALLER-SUPPLIED collection: items of a list the constructor built itself may have been
+        # validated while it was built
+        def caller_supplied(it: ast.expr) -> bool:
+            return any((isinstance(x, ast.Name) and x.id in g.params and x.id != "self") or (isinstance(x, ast.Attribute) and norm(x) in passed_in) for x in ast.walk(it))
+
+        loops = [lp for lp in ast.walk(g.node) if isinstance(lp, ast.For) and caller_supplied(lp.iter)]
         for lp in loops:
             lo, hi = lp.body[0].lineno, max(getattr(s_, "end_lineno", lp.end_lineno) for s_ in lp.body)
 
